@@ -309,3 +309,52 @@ Proof.
   - reflexivity.
   - exists st'. split; [exact E|exact He].
 Qed.
+
+(* ---- character-level prefix confinement for well-formed prefixes: whatever text b follows
+   a sequence of well-formed entries (malformed or not), those entries are read as written *)
+Lemma file_prefix m : forall es fuel d st b,
+  Forall (wf_sentry (p_macros st)) es -> sc_rest (p_sc st) = file_text es b ->
+  exists st', bib_loop lowproc (length es + fuel) m d st = bib_loop lowproc fuel m (d ++ map (entry_cmd (p_macros st)) es) st'
+              /\ sc_rest (p_sc st') = b /\ p_errs st' = p_errs st /\ p_macros st' = p_macros st.
+Proof.
+  induction es as [|e r IH]; intros fuel d st b Hwf Hr.
+  - cbn [file_text] in Hr. exists st. cbn. rewrite app_nil_r. auto.
+  - cbn [length plus bib_loop].
+    inversion Hwf as [|? ? He Hwr]; subst. destruct He as (Hb & H0 & H1 & H2 & Hk & Hend & Htyp & Hkey & Hfs).
+    cbn [file_text] in Hr. unfold skip_to. rewrite Hr, (find_first_app _ (se_wsb e) c_at _ (spaces_no_at _ Hb) eq_refl).
+    match goal with |- context [parse_command m ?s1] =>
+      destruct (entry_reads m s1 (se_brace e) (se_ws0 e) (se_typ e) (se_ws1 e) (se_ws2 e) (se_key e) (se_wsk e)
+                  (se_fields e) (se_trailing e) (se_wsend e) (file_text r b) H0 H1 H2 Hk Hend Htyp Hkey Hfs eq_refl)
+        as (st2 & E & Hr2 & Her & Hma)
+    end.
+    rewrite E. unfold lowproc at 1. cbn [obind].
+    cbn [p_macros p_errs set_cstart set_sc] in *.
+    destruct (IH fuel (d ++ [CEntry (se_typ e) (Some (se_key e)) (map (field_result (p_macros st)) (se_fields e))]) st2 b) as (st3 & E3 & Hr3 & Her3 & Hma3).
+    + rewrite Hma. exact Hwr.
+    + exact Hr2.
+    + rewrite E3. exists st3. rewrite Hma, <- app_assoc. cbn [map app]. unfold entry_cmd at 2.
+      split; [reflexivity|]. split; [exact Hr3|]. split; congruence.
+Qed.
+
+Lemma lowproc_append m : forall fuel d s d' s', bib_loop lowproc fuel m d s = Ret d' s' -> exists l, d' = d ++ l.
+Proof.
+  induction fuel as [|f IH]; intros d s d' s' H; [discriminate|]. cbn [bib_loop] in H.
+  destruct (skip_to _ (p_sc s)) as [[[v c] c']|].
+  2:{ injection H as <- <-. exists []. rewrite app_nil_r. reflexivity. }
+  destruct (parse_command m _) as [[c0|] s2|e s2|x]; try discriminate.
+  - unfold lowproc at 1 in H. cbn [obind] in H. destruct (IH _ _ _ _ H) as [l ->]. exists (c0 :: l). rewrite <- app_assoc. reflexivity.
+  - exact (IH _ _ _ _ H).
+  - destruct (handle_error m e s2) as [u s3|e3 s3|x3]; cbn [obind] in H; try discriminate. exact (IH _ _ _ _ H).
+Qed.
+
+Lemma prefix_confinement_lowlevel m es b d s : Forall (wf_sentry month_macros) es ->
+  lowlevel m (file_text es b) = Ret d s -> exists l, d = map (entry_cmd month_macros) es ++ l.
+Proof.
+  intros Hwf H. unfold lowlevel in H.
+  change (bib_loop lowproc (S (length (file_text es b))) m [] (pst_init (file_text es b) month_macros) = Ret d s) in H.
+  pose proof (file_text_len _ es b Hwf) as Hl.
+  replace (S (length (file_text es b))) with (length es + (S (length (file_text es b)) - length es))%nat in H by lia.
+  destruct (file_prefix m es (S (length (file_text es b)) - length es) [] (pst_init (file_text es b) month_macros) b Hwf eq_refl)
+    as (st' & E & _).
+  rewrite E in H. cbn [app] in H. exact (lowproc_append m _ _ _ _ _ H).
+Qed.
